@@ -253,7 +253,7 @@ def build_evidence(prop, tier, seed, outcomes, kout, mutant_results, violations,
                     fns.append('%s (%s) [unit %s]' % (fn['name'], fn['file'], o.name))
             for c in info['clauses']:
                 clauses_total += 1
-                if c['tag'].startswith('P ') and (prop in c['tag'].split()[1:2]):
+                if c['tag'].startswith('P ') and (prop in (c['tag'].split() + [''])[1].split(',')):
                     pobs.append('%s/%s/%s: %s' % (o.name, c['fn'], c['tag'], c['text'][:300]))
             for e in info['extraction']:
                 extraction.append({k: e[k] for k in ('item', 'file', 'lines', 'rules', 'sha')})
